@@ -81,3 +81,46 @@ Theorem C20_dimref_roundtrip : forall p g, V.Model.SmallFns.all_chars V.Proofs.S
 Proof. exact V.Proofs.Small_proofs.parse_dimref_roundtrip. Qed.
 Example C20_dunder_name_refuted : V.Model.SmallFns.parse_dimref "o1.d__x" = ("o1.d"%string, Some "x"%string).
 Proof. vm_compute. reflexivity. Qed.
+
+Require V.Model.CteShape V.Gen.CteShape_gen V.Proofs.CteShape_proofs.
+(* WHAT A MODEL CTE PROJECTS, regenerated: Gen/CteShape_gen.v holds the ordered (expression, alias) items, the FROM clause and the pushed-down WHERE that
+   SQLGenerator._build_model_cte (with _find_needed_dimensions) builds on 476 scripted worlds x queries (single / composite key, table- / sql-backed, three relationship
+   variants, incoming one_to_many / one_to_one / junction keys, join-key lists, ten dimension lists incl. granularities, a granularity on a non-time dimension, dimensions
+   named like keys and like a measure's raw column, fourteen metric lists incl. filtered / count / count_distinct / ratio / derived / cyclic / inline-aggregate / graph-level
+   / unknown metrics, pushed filters, ORDER BY, metric filter columns), extracted from generator.py on every run by executing the method's AST (translator/gen_cte.py, fail
+   closed, validated against CPython).  Model/CteShape.cte_shape builds the same thing on every row; and for ANY model definition, graph, query and helper functions:
+   every requested dimension of the model is projected under its name, every requested granularity of a time dimension under <name>__<granularity>, and nothing is
+   projected twice among keys and dimensions.  The raw column of a measure is NOT checked against those names: a dimension called <measure>_raw collides (class C20-K3). *)
+Theorem C20_cte_table : forallb (V.Model.CteShape.cte_row_ok V.Gen.CteShape_gen.cte_world) V.Gen.CteShape_gen.cte_rows = true.
+Proof. exact V.Proofs.CteShape_proofs.cte_table_holds. Qed.
+Theorem C20_requested_dimension_projected : forall qa trunc parse m graph dims filters order_by all_models mfc jk dn g d,
+  V.Proofs.CteShape_proofs.no_dot (V.Model.CteShape.mo_name m) = true -> V.Proofs.CteShape_proofs.no_dot dn = true ->
+  In ((V.Model.CteShape.mo_name m ++ "." ++ dn)%string, g) dims -> V.Model.CteShape.get_dim (V.Model.CteShape.mo_dims m) dn = Some d ->
+  In dn (V.Model.CteShape.st_added (V.Model.CteShape.cte_keys_dims qa trunc parse m graph dims filters order_by all_models mfc jk)).
+Proof.
+  intros qa trunc parse m graph dims filters order_by all_models mfc jk dn g d H1 H2 Hin Hg.
+  rewrite <- (V.Proofs.CteShape_proofs.second_piece_qualified _ _ H1 H2) at 1.
+  eapply V.Proofs.CteShape_proofs.requested_dimension_projected; [exact Hin | apply V.Proofs.CteShape_proofs.starts_with_qualified |].
+  rewrite (V.Proofs.CteShape_proofs.second_piece_qualified _ _ H1 H2). exact Hg.
+Qed.
+Theorem C20_requested_granularity_projected : forall qa trunc parse m graph dims filters order_by all_models mfc jk dn g d,
+  V.Proofs.CteShape_proofs.no_dot (V.Model.CteShape.mo_name m) = true -> V.Proofs.CteShape_proofs.no_dot dn = true ->
+  In ((V.Model.CteShape.mo_name m ++ "." ++ dn)%string, Some g) dims -> V.Model.CteShape.get_dim (V.Model.CteShape.mo_dims m) dn = Some d ->
+  V.Model.CteShape.cd_type d = "time"%string -> g <> ""%string ->
+  In (dn ++ "__" ++ g)%string (V.Model.CteShape.st_added (V.Model.CteShape.cte_keys_dims qa trunc parse m graph dims filters order_by all_models mfc jk)).
+Proof.
+  intros qa trunc parse m graph dims filters order_by all_models mfc jk dn g d H1 H2 Hin Hg Ht Hne.
+  rewrite <- (V.Proofs.CteShape_proofs.second_piece_qualified _ _ H1 H2) at 1.
+  eapply V.Proofs.CteShape_proofs.requested_granularity_projected; [exact Hin | apply V.Proofs.CteShape_proofs.starts_with_qualified | | exact Ht | exact Hne].
+  rewrite (V.Proofs.CteShape_proofs.second_piece_qualified _ _ H1 H2). exact Hg.
+Qed.
+Theorem C20_projected_once : forall qa trunc parse m graph dims filters order_by all_models mfc jk,
+  let s := V.Model.CteShape.cte_keys_dims qa trunc parse m graph dims filters order_by all_models mfc jk in
+  NoDup (V.Model.CteShape.st_added s) /\ map snd (V.Model.CteShape.st_items s) = map qa (List.rev (V.Model.CteShape.st_added s)).
+Proof. exact V.Proofs.CteShape_proofs.cte_keys_dims_wf. Qed.
+(* the witness of C20-K3 inside the regenerated table: the dimension rev_raw and the raw column of the measure rev are both projected as rev_raw *)
+Example C20_raw_alias_collision_refuted :
+  let sc := (0, 0, 1, 1, 0, [("o.rev_raw"%string, None)], ["o.rev"%string], None, None, None)%nat in
+  let res := ("QI(o_cte)", [("id", "QA(id)"); ("c_id", "QA(c_id)"); ("o_fk", "QA(o_fk)"); ("rr", "QA(rev_raw)"); ("amount", "QA(rev_raw)")], "raw.o", None)%string in
+  V.Model.CteShape.cte_of_scenario V.Gen.CteShape_gen.cte_world sc = Some res /\ V.Model.CteShape.row_in V.Gen.CteShape_gen.cte_rows sc res = true.
+Proof. vm_compute. split; reflexivity. Qed.
